@@ -93,7 +93,11 @@ def _expected(C0, f0, target, attach, sid):
     return M @ C0 @ M.T
 
 
-def _real_setup(start, f0name, seed):
+STATES = [[7e6 * 0.6, 7e6 * 0.5, 7e6 * 0.62, -4.5e3, 5.5e3, 1.2e3], [4.2164e7, 0.0, 1.0e5, -10.0, 3.0746e3, 5.0], [-1.2e7, 1.9e7, 8.0e6, -2.9e3, -2.1e3, 2.4e3],
+          [6.9e6 * 0.1, -6.9e6 * 0.7, 6.9e6 * 0.7, 6.4e3, 2.2e3, 3.4e3]]
+
+
+def _real_setup(start, f0name, seed, state=0):
     import numpy as np
     from beyond.orbits import StateVector
     from beyond.orbits.cov import Cov
@@ -102,7 +106,7 @@ def _real_setup(start, f0name, seed):
     rng = np.random.default_rng(seed)
     A = rng.normal(size=(6, 6)) * np.array([1e3] * 3 + [1] * 3)
     C = A @ A.T
-    sv = StateVector([7e6 * 0.6, 7e6 * 0.5, 7e6 * 0.62, -4.5e3, 5.5e3, 1.2e3], Date(2015, 3, 4, 5, 6, 7), "cartesian", get_frame(start))
+    sv = StateVector(STATES[state % len(STATES)], Date(2015, 3, 4, 5, 6, 7), "cartesian", get_frame(start))
     return sv, C
 
 
@@ -184,6 +188,15 @@ def _(c):
         f0name = c.choice("f0", [start, "ITRF", "QSW"])
         seq = [c.choice(f"t{i}", targets) for i in range(n)]
         sv, C = _real_setup(start, start, c.integer("seed"))
+        # a second object first: ANOTHER state carrying the very same matrix in the same frame goes to the same targets before this one does (each covariance is rotated
+        # onto the local axes of its OWN state: nothing may be remembered from one object to the next)
+        sv_b, _ = _real_setup(start, start, c.integer("seed"), state=1 + c.integer("copy_at") % 3)
+        cov_b = Cov(sv_b, C, f0name if f0name in LOCALS else get_frame(f0name))
+        for t in seq:
+            cov_b.frame = t
+        want_b = _direct(sv_b, C, f0name, seq[-1])
+        scale_b = np.sqrt(np.abs(np.outer(np.diag(want_b), np.diag(want_b)))) + 1e-30
+        c.ensure("view.other_state_first", bool(np.all(np.abs(np.asarray(cov_b, dtype=float) - want_b) <= 1e-7 * scale_b)))
         cov = Cov(sv, C, f0name if f0name in LOCALS else get_frame(f0name))
         how, at = c.integer("copy"), c.integer("copy_at")
         for j, t in enumerate(seq):
